@@ -53,8 +53,13 @@ impl Property for C02 {
         let y1 = format(case, &case.text);
         let y2 = format(case, &y1);
         let s_in = scan::scan(&case.text);
-        if !feature_on("code_fence_in_body") && canon::has_fence_in_code(&s_in) {
-            return Verdict::Discard("known-domain: code body contains a fence line".into());
+        if let Some(r) = canon::domain_discard(&s_in) {
+            return Verdict::Discard(r);
+        }
+        if case.door == 2 {
+            if let Some(r) = canon::domain_discard(&scan::scan(&case.prev)) {
+                return Verdict::Discard(r);
+            }
         }
         if !feature_on("adjacent_lists") {
             let o = CanonOpts { dir: String::new(), mask_refreshable: false };
